@@ -2,12 +2,49 @@
     Property theorems only.  Models: Common/JsonS.v (JSON, draft-04 validator for the keywords in use,
     validity relation [Valid]), Model/QCSchema.v (pydantic descriptors [ftype], values [pval],
     emission [emit] = Model.json(exclude_unset, exclude_none), inhabitation [Inh], checker [compat]),
-    Model/SchemaMol.v (to_schema/from_schema index+units core).  Generated on every run from /repo:
+    Model/SchemaMol.v (to_schema/from_schema index+units core), Model/SchemaTrans.v (whole-record to_schema / from_schema
+    on C04's molrec and from_arrays model).  Generated on every run from /repo:
     Gen/Schemas.v (Model.schema() of the six models), Gen/FieldTypes.v (__fields__ descriptors),
-    Gen/ToSchemaGen.v (unit branch of to_schema). *)
+    Gen/ToSchemaGen.v (unit branch of to_schema), Gen/SchemaKeys.v (key tables, headers, recognition rules, from_arrays defaults).
+
+    CLAUSE MAP (statement / quantifier of properties.jsonl C09 -> theorems here)
+    A. "for every model QCElemental publishes a schema for (six models), the JSON emitted for any valid instance (unset and null
+       fields excluded) validates against that schema"
+         generic, all instances:      C09_compatible_sound, C09_compatible_never_rejected (+ C09_validator_sound/_complete,
+                                      C09_inhabits_checker_sound: the executable pieces decide the relations used)
+         Molecule / Provenance / AtomicResultProperties:  C09_{Molecule,Provenance,AtomicResultProperties}_conforms   (FULL)
+         BasisSet / AtomicInput / AtomicResult:  FALSE as stated -> C09_BasisSet_conforms_refuted (known findings C09-uniqueitems,
+                                      -ecp); exact replacement C09_{BasisSet,AtomicInput,AtomicResult}_valid_iff_duplicate_free,
+                                      C09_*_conforms_modulo_uniqueItems, C09_strip_unique_weakens, C09_duplicate_free_enforced,
+                                      C09_incompat_sites_exact, C09_BasisSet_incompat_sites
+         "any valid instance" includes 0-d arrays where no validator guards the shape: C09_unguarded_array_fields,
+                                      C09_Molecule_0d_sites, C09_*_conforms_0d_exact, C09_scalar_in_array_field_refuted
+                                      (known finding C09-scalar-array-0d)
+         only correspondence: "a valid instance inhabits its field descriptors" (pydantic validation; checked per instance),
+                                      "the emitted text is [emit]" (checked per instance), by_alias/exclude_unset forcing (translator guard)
+    B. "translating a validated molecule to a schema dictionary and back, schema version 1 or 2, reproduces it"
+         whole record, Bohr molrec:   C09_schema_roundtrip_full (every molrec accepted by from_arrays under from_schema's settings, units
+                                      Bohr, non-empty, separators >= 0: from_schema(to_schema m v) is accepted and equals m but for
+                                      input_units_to_au; composition with C04_idempotent), C09_schema_second_translation (to_schema of the
+                                      result is the same dictionary), C09_headers_recognised (whatever header to_schema writes is
+                                      recognised by from_schema's rules), C09_schema_keys_inverse / _complete (key tables from the AST)
+         hypothesis "separators >= 0" is needed: C09_roundtrip_negative_separators_refuted (finding C09-negative-separators)
+         index core (any units):      C09_fragments_cover, C09_separators_roundtrip, C09_fragments_roundtrip, C09_schema_roundtrip_core
+         whole record, Angstrom molrec: C09_schema_roundtrip_angstrom (same, result = the molrec expressed in Bohr; hypothesis
+                                      Bohr-per-Angstrom factor >= 1, which the window check of from_arrays / the conversion factor give)
+         gaps: name / comment / provenance pass-through (oracle); "with numpy or plain-list output": both are the same abstract value in
+               the model, np_out (ndarray vs list representation, JSON-ability) is oracle only
+    C. "a Molecule rebuilt from its own dictionary is equal to the original with the same hash"
+         only oracle on the implementation (Molecule rebuilt from mol.dict(): ==, get_hash; re-validation keeps the hash); the molrec-level
+         content is B (Molecule.__init__ validates through from_schema -> to_schema) and hashing is C11
+    D. "the exported geometry is always in Bohr"
+         C09_exported_geometry_in_bohr (unit branch from the AST), C09_to_schema_exports_bohr (whole record: an export succeeds only
+         for units = Bohr and dtype 1/2, geometry = stored * Bohr-per-unit), C09_to_schema_refuses_other_units (ValidationError),
+         C09_from_schema_reads_bohr (whatever from_schema accepts is a Bohr molrec without input_units_to_au) *)
 From Coq Require Import ZArith NArith QArith List String Bool.
 Require Import QV.Common.Outcome QV.Common.JsonS QV.Proofs.JsonS QV.Model.QCSchema QV.Proofs.QCSchema
-               QV.Gen.Schemas QV.Gen.FieldTypes QV.Gen.ToSchemaGen QV.Model.SchemaMol QV.Proofs.SchemaMol.
+               QV.Gen.Schemas QV.Gen.FieldTypes QV.Gen.ToSchemaGen QV.Model.SchemaMol QV.Proofs.SchemaMol
+               QV.Model.MolRec QV.Proofs.MolRec QV.Gen.SchemaKeys QV.Model.SchemaTrans QV.Proofs.SchemaTrans QV.Proofs.SchemaTransAng.
 Import ListNotations.
 Open Scope string_scope.
 
@@ -238,6 +275,85 @@ Theorem C09_schema_roundtrip_core : forall m conv s,
                Forall2 Qeq (sc_geom s') (sc_geom s).
 Proof. exact core_roundtrip. Qed.
 
+(** ** Whole-record translation (Model/SchemaTrans.v on C04's molrec / from_arrays model).
+    Every molrec that from_arrays accepts under the settings from_schema uses (tooclose, mtol, zero_ghost_fragments at from_arrays'
+    defaults, read from its signature), stored in Bohr, with at least one atom and non-negative separators: to_schema (dtype 1 or 2)
+    succeeds, from_schema accepts the exported dictionary, and the molrec it returns is the original one (masses up to equality of
+    rationals) except that input_units_to_au is gone. *)
+Theorem C09_schema_roundtrip_full : forall r m dtype conv,
+    from_arrays r = Ok m -> schema_settings r -> m_units m = "Bohr" -> m_geom m <> [] ->
+    Forall (fun s => (0 <= s)%Z) (m_seps m) -> dtype = 1%Z \/ dtype = 2%Z ->
+    exists d m', to_schema_full m dtype Bohr conv = Ok d /\ from_schema_full (r_nonphysical r) d = Ok m' /\
+                 molrec_equiv m' (forget_iutau m).
+Proof. exact schema_roundtrip_full. Qed.
+
+(** The same for a molrec stored in Angstrom: the exported coordinates are the stored ones times the Bohr-per-Angstrom factor f
+    (the molrec's own input_units_to_au, else the conversion factor); for f >= 1 (from_arrays only accepts input_units_to_au within
+    0.05 of 1/bohr2angstroms = 1.88..., and the conversion factor is that number) the rescaled atoms are at least as far apart, from_schema
+    accepts the dictionary and returns the same molecule expressed in Bohr. *)
+Theorem C09_schema_roundtrip_angstrom : forall r m dtype conv,
+    from_arrays r = Ok m -> schema_settings r -> m_units m = "Angstrom" -> m_geom m <> [] ->
+    Forall (fun s => (0 <= s)%Z) (m_seps m) -> dtype = 1%Z \/ dtype = 2%Z -> (1 <= bohr_factor m conv)%Q ->
+    exists d m', to_schema_full m dtype Bohr conv = Ok d /\ from_schema_full (r_nonphysical r) d = Ok m' /\
+                 molrec_equiv m' (in_bohr (bohr_factor m conv) m).
+Proof. exact schema_roundtrip_angstrom. Qed.
+
+(** ... and translating the molrec that came back exports the same dictionary again. *)
+Theorem C09_schema_second_translation : forall r m dtype conv d m',
+    from_arrays r = Ok m -> m_units m = "Bohr" -> dtype = 1%Z \/ dtype = 2%Z ->
+    to_schema_full m dtype Bohr conv = Ok d -> molrec_equiv m' (forget_iutau m) ->
+    exists d', to_schema_full m' dtype Bohr conv = Ok d' /\ d_name d' = d_name d /\ d_version d' = d_version d /\
+               match d_nested d', d_nested d with
+               | Some a, Some b => smol_equiv a b
+               | None, None => smol_equiv (d_top d') (d_top d)
+               | _, _ => False
+               end.
+Proof. exact schema_second_translation. Qed.
+
+(** The hypothesis on the separators cannot be dropped: from_arrays accepts fragment_separators=[-1] (numpy reads it as a slice
+    index) and keeps it; the exported fragments are [[0,1],[2]] and from_schema returns separators [2]. *)
+Theorem C09_roundtrip_negative_separators_refuted :
+  exists r m d m', from_arrays r = Ok m /\ schema_settings r /\ m_units m = "Bohr" /\ m_geom m <> [] /\
+    to_schema_full m 2 Bohr 1 = Ok d /\ from_schema_full (r_nonphysical r) d = Ok m' /\
+    m_seps m = [(-1)%Z] /\ m_seps m' = [2%Z] /\ s_fragments (doc_mol d) = Some [[0; 1]; [2]]%Z.
+Proof. exact roundtrip_negative_separators_refuted. Qed.
+
+(** Whatever header to_schema writes for a dtype (generated table) is recognised by from_schema's rules (generated), which then
+    select the dictionary that holds the molecule. *)
+Theorem C09_headers_recognised : forall dtype name ver nested mol,
+    to_schema_header dtype = Some (name, ver, nested) ->
+    select_mol (match nested with
+                | Some _ => {| d_name := Some name; d_version := Some ver; d_top := no_mol; d_nested := Some mol |}
+                | None => {| d_name := Some name; d_version := Some ver; d_top := mol; d_nested := None |}
+                end) = Ok mol.
+Proof. exact header_recognised. Qed.
+
+(** Key tables read from the two ASTs: a molrec key exported under schema key k is the from_arrays argument filled from k ... *)
+Theorem C09_schema_keys_inverse : forall mk sk, In (mk, sk) exported_pairs -> In (mk, sk) read_pairs.
+Proof. exact schema_keys_inverse. Qed.
+
+(** ... every exported key but "validated" is read, nothing is read that is not written, and a key that from_schema requires
+    (ms[key]) is written unconditionally. *)
+Theorem C09_schema_keys_complete :
+  (forall sk s c, In (sk, s, c) to_schema_fields -> s <> SConstTrue -> exists kw rq ct, In (kw, sk, rq, ct) from_schema_reads) /\
+  (forall kw sk rq ct, In (kw, sk, rq, ct) from_schema_reads -> exists s c, In (sk, s, c) to_schema_fields) /\
+  (forall kw sk ct, In (kw, sk, true, ct) from_schema_reads -> exists s, In (sk, s, false) to_schema_fields).
+Proof. exact schema_keys_complete. Qed.
+
+(** Bohr, whole record: an export succeeds only for units Bohr and dtype 1 or 2 and carries the stored coordinates through the unit
+    branch; any other unit is refused with ValidationError; whatever from_schema accepts is a Bohr molrec. *)
+Theorem C09_to_schema_exports_bohr : forall m dtype u conv d, to_schema_full m dtype u conv = Ok d ->
+    u = Bohr /\ (dtype = 1%Z \/ dtype = 2%Z) /\ doc_mol d = export_mol m Bohr conv /\
+    s_geometry (doc_mol d) = Some (geom_scale (lunit_of (m_units m)) Bohr (m_iutau m) conv (m_geom m)).
+Proof. exact to_schema_full_ok. Qed.
+
+Theorem C09_to_schema_refuses_other_units : forall m dtype u conv, u <> Bohr ->
+    exists k, to_schema_full m dtype u conv = Err k /\ k = Validation.
+Proof. exact to_schema_refuses_other_units. Qed.
+
+Theorem C09_from_schema_reads_bohr : forall np d m', from_schema_full np d = Ok m' -> m_units m' = "Bohr" /\ m_iutau m' = None.
+Proof. exact from_schema_reads_bohr. Qed.
+
 (** Non-vacuity: a two-fragment molecule (He ... ghost He) with connectivity inhabits the Molecule descriptor,
     its emission is accepted by the validator; a basis set with a fused sp shell and an ECP likewise. *)
 Definition ex_mol : pval :=
@@ -307,3 +423,13 @@ Print Assumptions C09_separators_roundtrip.
 Print Assumptions C09_fragments_roundtrip.
 Print Assumptions C09_exported_geometry_in_bohr.
 Print Assumptions C09_schema_roundtrip_core.
+Print Assumptions C09_schema_roundtrip_full.
+Print Assumptions C09_schema_roundtrip_angstrom.
+Print Assumptions C09_schema_second_translation.
+Print Assumptions C09_roundtrip_negative_separators_refuted.
+Print Assumptions C09_headers_recognised.
+Print Assumptions C09_schema_keys_inverse.
+Print Assumptions C09_schema_keys_complete.
+Print Assumptions C09_to_schema_exports_bohr.
+Print Assumptions C09_to_schema_refuses_other_units.
+Print Assumptions C09_from_schema_reads_bohr.
